@@ -22,6 +22,10 @@ def plans(quick):
             dict(family='kinds', opts=opts,
                  gen=dict(steps=4, slots=1, lists=[['k1']], restart=False), cover_limit=150, walks=40,
                  sim=dict(num=100, depth=12, lists=[['k1'], ['k2']])),
+            # name mode: results (and their records) are named after the config; config names that extend one another
+            dict(family='names', name_mode=True, opts=opts,
+                 gen=dict(steps=4, slots=1, rcs=['model', 'model.large'], lists=[['model'], ['model.large']], restart=False),
+                 cover_limit=120, walks=40),
         ]
     return [
         dict(family=f, opts=opts, checks=[dict(steps=5, slots=2) if f != 'kinds' else dict(steps=4, slots=1)],
